@@ -11,7 +11,7 @@
 (* consistent with it (Tick): an event may not have finished before an     *)
 (* earlier listed one started.                                             *)
 (*                                                                         *)
-(*   Reset    mode queue qcap deflic lics conns   new history; `conns` is  *)
+(*   Reset    mode queue qcap deflic lics proph   new history; `proph` is  *)
 (*            what the collector recorded per accepted connection: the     *)
 (*            parsed frames (id, net, pcode, lh, plen, dg), the number of  *)
 (*            trailing bytes of an incomplete frame (+ its header if       *)
@@ -72,7 +72,7 @@ TraceReset ==
   /\ conn' = 0 /\ nconn' = 0 /\ wbuf' = <<>> /\ werr' = FALSE /\ net' = <<>> /\ wire' = <<>>
   /\ listener' = "open" /\ queue' = <<>>
   /\ reg' = <<>> /\ okset' = {} /\ errset' = {} /\ faults' = 0 /\ streak' = 0
-  /\ proph' = Ev.conns /\ lics' = Ev.lics /\ clock' = 0 /\ nst' = 0 /\ wbytes' = 0
+  /\ proph' = Ev.proph /\ lics' = Ev.lics /\ clock' = 0 /\ nst' = 0 /\ wbytes' = 0
   /\ todo' = <<>> /\ todoErr' = FALSE
 
 PackOf(e) == [id |-> e.id, pcode |-> e.pcode, lic |-> e.lic,
